@@ -58,6 +58,10 @@ def entry(rng, valid=True):
             e['extra'] = 1   # still valid
     elif rng.random() < 0.15:
         e['secret'] = rng.choice([1, None, ['x'], 0])   # non-string secret/owner are accepted by load()
+    elif rng.random() < 0.12:
+        # load() checks that the channel fields are LISTS, not what is in them: such a file is valid and must replace the
+        # table as a whole like any other
+        e[rng.choice(['pubchans', 'subchans'])] = rng.choice([['c1', 7], [None], ['c2', ['x']], [True, 'c1'], [{}]])
     return e
 
 
@@ -202,7 +206,10 @@ def load_prelude(tmp, content):
     with open(p2, 'wb') as f:
         f.write(content)
     other = JS.Authenticator(p2)
-    other.load()
+    try:
+        other.load()
+    except Exception:
+        pass      # the predecessor instance is scenery: what its load() does is judged when the instance under test loads
     try:
         return sorted(json.loads(content.decode('utf-8')))
     except Exception:
